@@ -133,6 +133,13 @@ func (p *provider) GetOrCreate(ctx context.Context, state State, cache bool) (Cu
 	}
 
 	p.lock.Lock()
+	if _, ok := p.curs[cur.Id()]; ok {
+		// another request with the same id went through the first locked section together with this
+		// one and has cached its cursor already: do not overwrite its map entry, give ours back
+		p.lock.Unlock()
+		cur.close()
+		return nil, errors.Errorf("crsr usage violation: concurrent request for id=%d", state.Id)
+	}
 	e := p.free
 	if e != nil {
 		p.free = p.free.TearOff(e)
